@@ -570,7 +570,15 @@ def recode(fn, ovld, recurse_sym, call_next_sym, newname, slot=None):
             " to force a refresh, or remove __pycache__ altogether. If that does not work,"
             " avoid calling recurse()/call_next()"
         )
-    tree = ast.parse(textwrap.dedent(src))
+    shift = 0
+    if src[:1] in " \t":
+        # An indented definition is parsed as the body of a block rather than
+        # dedented as text, which would also alter its multi-line literals
+        tree = ast.parse("if True:\n" + src)
+        tree = ast.Module(body=tree.body[0].body, type_ignores=[])
+        shift = -1
+    else:
+        tree = ast.parse(src)
     new = NameConverter(
         anal=ovld.argument_analysis,
         recurse_sym=recurse_sym,
@@ -584,7 +592,7 @@ def recode(fn, ovld, recurse_sym, call_next_sym, newname, slot=None):
     if fn.__closure__:
         new = closure_wrap(new.body[0], "irrelevant", fn.__code__.co_freevars)
     ast.fix_missing_locations(new)
-    ast.increment_lineno(new, fn.__code__.co_firstlineno - 1)
+    ast.increment_lineno(new, fn.__code__.co_firstlineno - 1 + shift)
     res = compile(new, mode="exec", filename=fn.__code__.co_filename)
     if fn.__closure__:
         res = [x for x in res.co_consts if isinstance(x, CodeType)][0]
